@@ -214,9 +214,9 @@ static void build_catalogue (void)
 	s = new_script ("rs28-decoder-matrix", 1, OF_DECODER, 3, 2, 8, 8, 0, 0, 0); add (s, S_CREATE, 0); add (s, S_SET, 0); add (s, S_DWS, 1); add (s, S_DWS, 3); add (s, S_DWS, 4); add (s, S_QUERY, 0); add (s, S_RELEASE, 0);
 	s = new_script ("rs2m4-decoder-sas", 2, OF_DECODER, 4, 3, 6, 4, 0, 0, 0); add (s, S_CREATE, 0); add (s, S_SET, 0); add (s, S_SAS, 0x6C); add (s, S_FIN, 0); add (s, S_QUERY, 0); add (s, S_RELEASE, 0);
 	s = new_script ("rs2m8-encoder", 2, OF_ENCODER, 4, 3, 7, 8, 0, 0, 0); add (s, S_CREATE, 0); add (s, S_SET, 0); add (s, S_BUILD, 4); add (s, S_BUILD, 6); add (s, S_CTRL, 0); add (s, S_RELEASE, 0);
-	s = new_script ("ldpc-encoder", 3, OF_ENCODER, 6, 4, 9, 0, 3, 5, 0); add (s, S_CREATE, 0); add (s, S_SET, 0); add (s, S_BUILD, 6); add (s, S_BUILD, 7); add (s, S_BUILD, 8); add (s, S_BUILD, 9); add (s, S_RELEASE, 0);
+	s = new_script ("ldpc-encoder", 3, OF_ENCODER, 6, 4, 9, 0, 3, 5, 0); add (s, S_CREATE, 0); add (s, S_SET, 0); add (s, S_BUILD, 6); add (s, S_BUILD, 7); add (s, S_BUILD, 8); add (s, S_BUILD, 9); add (s, S_CTRL, 0); add (s, S_RELEASE, 0);
 	s = new_script ("ldpc-decoder-ml", 3, OF_DECODER, 6, 5, 5, 0, 3, 9, 0); add (s, S_CREATE, 0); add (s, S_SET, 0); add (s, S_SAS, ml_mask (6, 11, 3, 9)); add (s, S_FIN, 0); add (s, S_QUERY, 0); add (s, S_RELEASE, 0);
-	s = new_script ("ldpc-decoder-evenN1-dws", 3, OF_DECODER, 5, 4, 4, 0, 4, 2, 0); add (s, S_CREATE, 0); add (s, S_SET, 0); add (s, S_DWS, 6); add (s, S_DWS, 0); add (s, S_DWS, 7); add (s, S_QUERY, 0); add (s, S_RELEASE, 0);
+	s = new_script ("ldpc-decoder-evenN1-dws", 3, OF_DECODER, 5, 4, 4, 0, 4, 2, 0); add (s, S_CREATE, 0); add (s, S_SET, 0); add (s, S_CTRL, 0); add (s, S_DWS, 6); add (s, S_DWS, 0); add (s, S_DWS, 7); add (s, S_QUERY, 0); add (s, S_RELEASE, 0);
 	s = new_script ("ldpc-rejected-N1", 3, OF_DECODER, 5, 4, 4, 0, 9, 77, 0); add (s, S_CREATE, 0); add (s, S_SET, 0); add (s, S_RELEASE, 0);
 	s = new_script ("2d-encoder", 5, OF_ENCODER, 4, 4, 6, 0, 0, 0, 0); add (s, S_CREATE, 0); add (s, S_SET, 0); add (s, S_BUILD, 4); add (s, S_BUILD, 5); add (s, S_BUILD, 6); add (s, S_BUILD, 7); add (s, S_RELEASE, 0);
 	s = new_script ("rs28-encoder-verbose", 1, OF_ENCODER, 2, 2, 5, 8, 0, 0, 2); add (s, S_CREATE, 0); add (s, S_SET, 0); add (s, S_BUILD, 2); add (s, S_BUILD, 3); add (s, S_RELEASE, 0);
@@ -247,6 +247,11 @@ static void build_catalogue (void)
 	s = new_script ("rs2m8-decoder-callbacks", 2, OF_DECODER, 3, 2, 8, 8, 0, 0, 0); add (s, S_CREATE, 0); add (s, S_SET, 0); add (s, S_SETCB, 1); add (s, S_DWS, 4); add (s, S_DWS, 2); add (s, S_DWS, 3); add (s, S_QUERY, 0); add (s, S_RELEASE, 0);
 	s = new_script ("ldpc-decoder-callbacks", 3, OF_DECODER, 2, 3, 8, 0, 3, 1, 0); add (s, S_CREATE, 0); add (s, S_SET, 0); add (s, S_SETCB, 1); add (s, S_DWS, 0); add (s, S_DWS, 2); add (s, S_FIN, 0); add (s, S_QUERY, 0); add (s, S_RELEASE, 0);
 	s = new_script ("ldpc-decoder-source-callback-only", 3, OF_DECODER, 2, 3, 8, 0, 3, 1, 0); add (s, S_CREATE, 0); add (s, S_SET, 0); add (s, S_SETCB, 0); add (s, S_DWS, 3); add (s, S_DWS, 4); add (s, S_DWS, 2); add (s, S_QUERY, 0); add (s, S_RELEASE, 0);
+	/* the "last repair symbol is null" answer asked late, on codes where it is false (one extra entry) and true; the same
+	 * even-N1 decoder with longer symbols (its self-injected null symbol) */
+	s = new_script ("ldpc-encoder-evenN1-extra-entry", 3, OF_ENCODER, 1, 5, 6, 0, 4, 1, 0); add (s, S_CREATE, 0); add (s, S_SET, 0); add (s, S_BUILDALL, 0); add (s, S_CTRL, 0); add (s, S_RELEASE, 0);
+	s = new_script ("ldpc-encoder-evenN1-null-last", 3, OF_ENCODER, 4, 4, 6, 0, 4, 1, 0); add (s, S_CREATE, 0); add (s, S_SET, 0); add (s, S_BUILDALL, 0); add (s, S_CTRL, 0); add (s, S_RELEASE, 0);
+	s = new_script ("ldpc-decoder-evenN1-dws-long-symbols", 3, OF_DECODER, 5, 4, 40, 0, 4, 2, 0); add (s, S_CREATE, 0); add (s, S_SET, 0); add (s, S_DWS, 6); add (s, S_DWS, 0); add (s, S_DWS, 7); add (s, S_QUERY, 0); add (s, S_RELEASE, 0);
 	NCORE = NSCR;
 	{	/* systematic families (pairs only): for each Reed-Solomon codec, 4 shapes sharing k or n-k, as encoder, as decoder fed
 		 * the highest ESIs, and as one session that encodes and then decodes */
